@@ -269,6 +269,14 @@ impl Report {
                 println!("  {k}: {}", v.1);
             }
             a1
+        } else if std::env::var_os("VERIF_SEQ").is_some() {
+            // single-threaded (interpreted runs under Miri)
+            let mut acc = Acc::new();
+            for i in 0..size {
+                acc.cur = i;
+                f(i, &mut acc);
+            }
+            acc
         } else {
             let chunk: u64 = (size / 4096).clamp(1, 1 << 16);
             let nchunks = size.div_ceil(chunk);
